@@ -231,7 +231,8 @@ def w_terms(tier: str) -> list[Any]:
     bases = (0.5, 1, 2, 10) if q else (0.1, 0.5, 1, 1.5, 2, 3, 10)
     for m in mults:
         for b in bases:
-            for mx, mn in ((60, 0), (60, 2), (0.5, 0), (("td", 30), ("td", 1)), (("td", 0.5), ("td", 0.25)), (1e9, 0)):
+            for mx, mn in ((60, 0), (60, 2), (0.5, 0), (("td", 30), ("td", 1)), (("td", 0.5), ("td", 0.25)), (1e9, 0),
+                           (60, 90), (0.5, 2)):  # (the last two: a floor above the cap - the floor wins)
                 ts.append(("exp", m, b, mx, mn))
                 ts.append(("rand_exp", m, b, mx, mn))
                 ts.append(("full_jitter", m, b, mx, mn))
